@@ -131,8 +131,10 @@ def gen_sets(ctx):
                 ('expr<=6', progs.generate(ctx, 'expr', 6)),
                 ('blocks<=9', progs.generate(ctx, 'blocks', 9)),
                 ('shortif<=15', progs.generate(ctx, 'shortif', 15)),
-                ('sim<=40', progs.generate(ctx, 'all', 40, max_depth=4, simulate=300))]
-    return [('all<=6', progs.generate(ctx, 'all', 6)),
+                ('sim<=40', progs.generate(ctx, 'all', 40, max_depth=4, simulate=300)),
+                progs.wide_set(ctx, 40)]
+    return [progs.wide_set(ctx, 400),
+            ('all<=6', progs.generate(ctx, 'all', 6)),
             ('expr<=8', progs.generate(ctx, 'expr', 8)),
             ('skeleton<=8', progs.generate(ctx, 'skeleton', 8)),
             ('blocks<=11', progs.generate(ctx, 'blocks', 11)),
